@@ -126,8 +126,16 @@ def suite_analysis(seed, tier):
                      (f"fileseq-{scheme}-{m}-parts", seq2, packed2)]
             res = []
             for name, prov, packed in provs:
-                ca = cluster_analysis(clusters, prov, n_features=nf, top=top, min_size=min_size,
-                                      input_is_packed=packed)
+                try:
+                    ca = cluster_analysis(clusters, prov, n_features=nf, top=top, min_size=min_size,
+                                          input_is_packed=packed)
+                except Exception as e:
+                    # (the files exist and hold exactly the fitted rows: an exception is a wrong answer)
+                    r.bad.append({"suite": "analysis", "what": f"cluster_analysis with provider {name} raised "
+                                  f"{type(e).__name__}: {str(e)[:120]} (case {k}: the same paths held other arrays "
+                                  "in earlier cases)", "clusters": clusters[:5], "top": top, "min_size": min_size,
+                                  "case_index": k})
+                    continue
                 try:
                     sz, isv = [int(s) for s in ca.sizes], [float(v).hex() for v in ca.isims]
                 except KeyError:            # empty selection: the frame has no columns
@@ -135,6 +143,8 @@ def suite_analysis(seed, tier):
                 res.append((name, sz, isv,
                             int(ca.total_fps), int(ca.all_singletons_num),
                             int(ca.all_clusters_num_with_size_above(2)), len(clusters)))
+            if len(res) < len(provs):
+                continue
             for other in res[1:]:
                 if other[1:] != res[0][1:]:
                     r.bad.append({"suite": "analysis", "what": f"provider {other[0]} gives a different analysis "
